@@ -2,7 +2,7 @@
    Orderings = all event lists (Start, Tick, Exit c, PM c, Fin c) accepted by the controller model. *)
 From Coq Require Import List Bool Arith.
 Import ListNotations.
-Require Import V.Restart.Model V.Sched.Model V.Sched.Proofs V.Sched.Property V.Stage.Spec V.Stage.Proofs V.Stage.Progress V.Stage.Bound.
+Require Import V.Restart.Model V.Sched.Model V.Sched.Proofs V.Sched.Property V.Stage.Spec V.Stage.Proofs V.Stage.Progress V.Stage.Bound V.Stage.Failure.
 
 (* If no task exits unrecoverably by the rules (no component's rule-given state is failed) and the
    same-stage producers of repeating components simply finish, then in EVERY reachable state of EVERY
@@ -99,6 +99,28 @@ Theorem C02_bounded : forall W outcome evs s c,
   total (is_fin_ev c) evs <= 1.
 Proof. intros W outcome evs s c H. exact (bounded W outcome evs s c H). Qed.
 Print Assumptions C02_bounded.
+
+(* The failure case, for workflows of one stage: whatever the ordering and whichever tasks exit
+   unrecoverably, every final state a component ever receives is its rule-given state or shut-down; as long
+   as no failed component has been handled by finishedCheck the final states are exactly the rule-given ones,
+   and from that moment on every component is staged, i.e. nothing is launched any more.  (With
+   C02_failure_reported: the stage is then reported failed.)  Same hypothesis on same-stage producers of
+   repeating components as C02_determinism; for several stages the statement is false of the code, because
+   components of later stages may still be launched after an earlier stage has failed. *)
+Theorem C02_failure_case : forall W outcome evs s,
+  wf W -> (forall c, stage (cmp W c) = 0) ->
+  (forall c p, In p (preds (cmp W c)) -> is_subject W c p = true -> spec W outcome p = Finished) ->
+  run W true outcome state0 evs = Some s ->
+  (forall c f, ctl (dy s c) = Some f -> f = spec W outcome c \/ f = Shutdown) /\
+  (calm s -> forall c f, ctl (dy s c) = Some f -> f = spec W outcome c) /\
+  (~ calm s -> forall c, c < ncomp W -> staged (dy s c) = true).
+Proof.
+  intros W outcome evs s WF SG SB Hr.
+  destruct (run_K W outcome WF SG SB evs state0 s Inv_state0 (kinv_state0 W outcome) Hr) as [K St].
+  split; [exact (b_ctl _ _ _ K)|split; [|exact St]].
+  intros C. exact (proj1 (b_calm _ _ _ K C)).
+Qed.
+Print Assumptions C02_failure_case.
 
 (* non-vacuity: a 4-component workflow (two replicas feeding an aggregator, plus a consumer of it);
    replica 1 exits with a shutdownOn reason: rule-given states, hypotheses satisfied, and a complete
